@@ -322,12 +322,26 @@ def catalogue(signame):
     return c
 
 
+def core_catalogue(signame):
+    def absent_only(it):
+        if it[0] == 'macro':
+            return all(sl is None or sl[0] in ('braced',) for sl in it[3]) and \
+                any(sl is None for sl in it[3])
+        if it[0] == 'env':
+            return any(sl is None for sl in it[2])
+        return it[0] in ('text', 'space', 'par', 'comment') or it == ['group', []]
+    out = [it for it in catalogue(signame) if absent_only(it)]
+    out.append(['macro', 'alpha' if signame == 'default' else 'mnone', '', []])
+    return out
+
+
 def plan(tier, seed):
     n = 16000 if tier == 'quick' else 160000
     shards = [('docs', n // NSHARDS, seed * 1000 + k, CTXS[k % len(CTXS)]) for k in range(NSHARDS)]
     L = 2 if tier == 'quick' else 3
     for signame in ('default', 'every', 'every-nounknown'):
         shards += [('enum', signame, L, k) for k in range(NSHARDS)]
+        shards += [('enum', signame, -(L + 1), k) for k in range(NSHARDS)]
     return {'shards': shards, 'bounds': {'documents': n, 'depth': 3, 'contexts': list(CTXS),
                                          'exhaustive_items': L,
                                          'catalogue_sizes': {c: len(catalogue(c)) for c in
@@ -347,6 +361,11 @@ def run_shard(shard, res):
         import copy
         _, signame, L, k = shard
         cat = catalogue(signame)
+        if L < 0:
+            # core sub-catalogue (absent optional slots, bracket / star texts, whitespace),
+            # enumerated one item deeper
+            L = -L
+            cat = core_catalogue(signame)
         sig = docgrammar.SIGS[signame]
         i = 0
         for l in range(1, L + 1):
